@@ -2,14 +2,22 @@
 // reproduces the original.  ST::string::split (char, const char*, ST::string), tokenize, replace (all four
 // from/to overload combinations), both case modes, against ref/ref_text.h.  The library has no join();
 // "joining" is done by the reference on the pieces the library returned.
+// Extended: every overload incl. the char8_t forms (on const and on mutable objects - replace(const char8_t*, const
+// ST::string&) is a non-const member), the explicit-validation and deprecated replace overloads, defaulted arguments next to
+// explicit ones in every case, self-referential calls, an explicit join by hand, and a second case layout with subjects up to
+// ~48 KB, hundreds of separators, separators of 1..300 bytes (255/256/257) and delimiter sets of 0..40 bytes (gen/gen_long89.h).
 #include <string_theory/string>
+
+#include <deque>
 
 #include <climits>
 
 #include "common/verif.h"
 #include "common/alloc_track.h"
 #include "gen/gen_text.h"
+#include "gen/gen_long89.h"
 #include "ref/ref_text.h"
+#include "ref/ref_text_ext89.h"
 
 using verif::Case;
 
@@ -61,41 +69,61 @@ std::string smax(ull v) { return v == ULLONG_MAX ? std::string("SIZE_MAX") : ver
 
 bool all_valid(const std::vector<std::string> &v) { for (const std::string &x : v) if (!ref::utf8_structurally_valid(x)) return false; return true; }
 
-// Judge the pieces returned by one split overload.  seen = what that overload can see of the separator.
-std::string judge_split(const std::string &S, const std::string &seen, ull max, bool ci, bool threw, bool may_throw,
-                        const std::vector<ST::string> &v, const std::string &tag) {
-    if (threw) return may_throw ? std::string() : "split" + tag + " threw ST::unicode_error although neither the pieces nor the rule of DESIGN 3(c) allow it";
-    std::vector<std::string> got;
-    for (const ST::string &x : v) got.push_back(str(x));
-    const std::vector<std::string> want = ref::split(S, seen, max, ci);
-    if (got != want) return "split" + tag + " returned " + show(got) + ", reference " + show(want);
-    if (got.empty() || got.size() - 1 > max) return "split" + tag + " returned " + verif::unum(got.size()) + " pieces for max_splits=" + smax(max);
-    if (seen.empty() && (got.size() != 1 || got[0] != S)) return "split" + tag + " with an empty separator does not leave the text whole";
-    // the pieces, with the separator between them, reassemble the original (matched occurrences in case-insensitive mode)
-    if (!ci) { if (ref::join(got, seen) != S) return "split" + tag + ": join(pieces, sep) != original"; }
-    else {
-        size_t pos = 0;
-        for (size_t i = 0; i < got.size(); i++) {
-            if (S.compare(pos, got[i].size(), got[i]) != 0 || got[i].size() > S.size() - pos) return "split" + tag + ": piece " + verif::unum(i) + " is not the next part of the original";
-            pos += got[i].size();
-            if (i + 1 < got.size()) { if (!ref::occurs_at(S, pos, seen, true)) return "split" + tag + ": no separator occurrence between pieces " + verif::unum(i) + " and " + verif::unum(i + 1); pos += seen.size(); }
-        }
-        if (pos != S.size()) return "split" + tag + ": pieces and separators do not cover the original";
+// The model's answers, computed once per distinct (arguments as the overload sees them, case mode) and shared by every
+// overload that sees the same bytes.
+struct SplitModel { std::string seen; ull max; bool ci; std::vector<std::string> want; bool pieces_valid; };
+struct ReplaceModel { std::string from, to; bool ci; std::string want; size_t k; bool valid; };
+struct Memo {
+    const std::string &S;
+    std::deque<SplitModel> splits; std::deque<ReplaceModel> reps;
+    explicit Memo(const std::string &s) : S(s) {}
+    const SplitModel &split(const std::string &seen, ull max, bool ci) {
+        for (const SplitModel &m : splits) if (m.ci == ci && m.max == max && m.seen == seen) return m;
+        splits.push_back(SplitModel{seen, max, ci, ref::split(S, seen, max, ci), false});
+        splits.back().pieces_valid = all_valid(splits.back().want);
+        return splits.back();
     }
+    const ReplaceModel &replace(const std::string &from, const std::string &to, bool ci) {
+        for (const ReplaceModel &m : reps) if (m.ci == ci && m.from == from && m.to == to) return m;
+        reps.push_back(ReplaceModel{from, to, ci, std::string(), 0, false});
+        ReplaceModel &m = reps.back();
+        m.want = ref::replace(S, from, to, ci, &m.k); m.valid = ref::utf8_structurally_valid(m.want);
+        return m;
+    }
+};
+
+std::string show_lib(const std::vector<ST::string> &v) { std::vector<std::string> g; for (size_t i = 0; i < v.size() && i < 9; i++) g.push_back(str(v[i])); std::string o = show(g); return v.size() > 9 ? o + " of " + verif::unum(v.size()) : o; }
+
+// Judge the pieces returned by one split overload.  m.seen = what that overload can see of the separator.
+std::string judge_split(const std::string &S, const SplitModel &m, bool threw, bool may_throw, const std::vector<ST::string> &v, const std::string &tag) {
+    const std::string &seen = m.seen; const ull max = m.max; const bool ci = m.ci;
+    if (threw) return may_throw ? std::string() : "split" + tag + " threw ST::unicode_error although neither the pieces nor the rule of DESIGN 3(c) allow it";
+    const std::vector<std::string> &want = m.want;
+    bool same = v.size() == want.size();
+    for (size_t i = 0; same && i < v.size(); i++) same = v[i].size() == want[i].size() && memcmp(v[i].c_str(), want[i].data(), want[i].size()) == 0;
+    if (!same) return "split" + tag + " returned " + show_lib(v) + ", reference " + show(want);
+    if (v.empty() || v.size() - 1 > max) return "split" + tag + " returned " + verif::unum(v.size()) + " pieces for max_splits=" + smax(max);
+    if (seen.empty() && (v.size() != 1 || str(v[0]) != S)) return "split" + tag + " with an empty separator does not leave the text whole";
+    // the pieces, with the separator between them, reassemble the original (matched occurrences in case-insensitive mode):
+    // an explicit join by hand over the library's own pieces
+    std::vector<ref89::Piece> views; views.reserve(v.size());
+    for (const ST::string &x : v) views.push_back(ref89::Piece{x.c_str(), x.size()});
+    if (!ci) { if (ref89::join_by_hand(views, seen.data(), seen.size()) != S) return "split" + tag + ": join(pieces, sep) != original"; }
+    else { std::string why = ref89::reassembles_ci(S, views, seen); if (!why.empty()) return "split" + tag + ": " + why; }
     return std::string();
 }
 
-std::string judge_replace(const std::string &S, const std::string &from, const std::string &to, bool ci, bool threw, bool may_throw_args,
-                          const ST::string &res, const std::string &tag) {
-    size_t k = 0;
-    const std::string want = ref::replace(S, from, to, ci, &k);
-    const bool may_throw = may_throw_args || !ref::utf8_structurally_valid(want);
+std::string judge_replace(const std::string &S, const ReplaceModel &m, bool threw, bool may_throw_args, const ST::string &res, const std::string &tag) {
+    const std::string &want = m.want; const size_t k = m.k;
+    const bool may_throw = may_throw_args || !m.valid;
     if (threw) return may_throw ? std::string() : "replace" + tag + " threw ST::unicode_error although the result " + verif::quoted(want, 40) + " and its arguments are structurally valid UTF-8";
-    const std::string got = str(res);
-    if (got != want) return "replace" + tag + " returned " + verif::quoted(got, 60) + "[" + verif::unum(got.size()) + "], reference " + verif::quoted(want, 60) + "[" + verif::unum(want.size()) + "]";
-    const ll len = (ll)S.size() + (ll)k * ((ll)to.size() - (ll)from.size());
-    if ((ll)got.size() != len) return "replace" + tag + ": length " + verif::unum(got.size()) + " != size + k*(|to|-|from|) = " + verif::num(len) + " for k=" + verif::unum(k);
-    if (from.empty() && got != S) return "replace" + tag + " with an empty pattern does not leave the text whole";
+    if (res.size() != want.size() || memcmp(res.c_str(), want.data(), want.size()) != 0) {
+        const std::string got = str(res);
+        return "replace" + tag + " returned " + verif::quoted(got, 60) + "[" + verif::unum(got.size()) + "], reference " + verif::quoted(want, 60) + "[" + verif::unum(want.size()) + "]";
+    }
+    const ll len = (ll)S.size() + (ll)k * ((ll)m.to.size() - (ll)m.from.size());
+    if ((ll)res.size() != len) return "replace" + tag + ": length " + verif::unum(res.size()) + " != size + k*(|to|-|from|) = " + verif::num(len) + " for k=" + verif::unum(k);
+    if (m.from.empty() && str(res) != S) return "replace" + tag + " with an empty pattern does not leave the text whole";
     return std::string();
 }
 
@@ -105,74 +133,166 @@ template <class R, class F> bool lib_call(R &out, F f) {
     catch (const ST::unicode_error &) { return true; }
 }
 
+const char *vname(int v) { return v == 0 ? "" : v == 1 ? ", check_validity" : v == 2 ? ", assume_valid" : ", substitute_invalid"; }
+
 std::string check_text(const TextCase &k) {
     verif::alloc::reset();
     const std::string &S = k.s, &P = k.pat, &T = k.to;
     verif::Exact<char> sx(S), pz(P, true), tz(T, true), dz(k.delims, true);
     const char *pzp = pz.data(), *tzp = tz.data(), *dzp = dz.data();
-    const std::string Pc = ref::c_view(P), Tc = ref::c_view(T);
+    const char8_t *pz8 = reinterpret_cast<const char8_t *>(pzp), *tz8 = reinterpret_cast<const char8_t *>(tzp);
+    const std::string Pc = ref::c_view(P), Tc = ref::c_view(T), Sc = ref::c_view(S);
     const size_t smax_ = (size_t)k.max;
+    Memo memo(S);
     try {
-        ST::string ss, ps, ts;
-        { verif::alloc::LibScope ls; ss = ST::string::from_validated(sx.data(), sx.size()); ps = ST::string::from_validated(P.data(), P.size()); ts = ST::string::from_validated(T.data(), T.size()); }
+        ST::string ss_, ps, ts, ms;
+        { verif::alloc::LibScope ls; ss_ = ST::string::from_validated(sx.data(), sx.size()); ps = ST::string::from_validated(P.data(), P.size()); ts = ST::string::from_validated(T.data(), T.size());
+          ms = ST::string(sx.data(), sx.size(), ST::assume_valid); }   // a second, mutable subject object with its own buffer
+        const ST::string &ss = ss_;
         const bool char_form = P.size() == 1 && (unsigned char)P[0] >= 0x01 && (unsigned char)P[0] <= 0x7F;   // split(char) is documented for 0x01..0x7F only
         // split(const char*) re-validates every piece when the splitter has a non-ASCII byte (DESIGN 3(c))
         const bool cstr_pieces_checked = !ref::all_ascii(Pc);
+        const bool pbad = !ref::utf8_structurally_valid(Pc), tbad = !ref::utf8_structurally_valid(Tc);
+        // what a C string turns into under substitute_invalid is the business of C02; here the sibling constructor of the
+        // library supplies it (the overload must agree with replace(ST::string(from, ST_AUTO_SIZE, validation), ...))
+        std::string Psub = Pc, Tsub = Tc;
+        if (pbad) { verif::alloc::LibScope ls; ST::string t(pzp, ST_AUTO_SIZE, ST::substitute_invalid); Psub = str(t); }
+        if (tbad) { verif::alloc::LibScope ls; ST::string t(tzp, ST_AUTO_SIZE, ST::substitute_invalid); Tsub = str(t); }
+        static const ST::utf_validation_t VAL[4] = {ST::check_validity, ST::check_validity, ST::assume_valid, ST::substitute_invalid};
+
         for (int m = 0; m < 2; m++) {
             const bool ci = m != 0;
             const ST::case_sensitivity_t cs = ci ? ST::case_insensitive : ST::case_sensitive;
             const std::string mode = ci ? ", case_insensitive)" : ", case_sensitive)";
             std::vector<ST::string> v; bool threw; std::string why;
 
-            // ---- split
+            // ---- split.  Each overload: with the case's max_splits, and (case-sensitive round) with every argument defaulted
+            const SplitModel &full = memo.split(P, k.max, ci), &cut = memo.split(Pc, k.max, ci);
+            const bool cmay = cstr_pieces_checked && !cut.pieces_valid;
             threw = k.max_default && !ci ? lib_call(v, [&] { return ss.split(ps); }) : !ci ? lib_call(v, [&] { return ss.split(ps, smax_); }) : lib_call(v, [&] { return ss.split(ps, smax_, cs); });
-            why = judge_split(S, P, k.max, ci, threw, false, v, "(ST::string, " + smax(k.max) + mode);
+            why = judge_split(S, full, threw, false, v, "(ST::string, " + smax(k.max) + mode);
             if (!why.empty()) return why;
-            if (!ci) { threw = lib_call(v, [&] { return ss.split(ps, smax_, cs); }); why = judge_split(S, P, k.max, ci, threw, false, v, "(ST::string, " + smax(k.max) + ", explicit case_sensitive)"); if (!why.empty()) return why; }
+            if (!ci) { threw = lib_call(v, [&] { return ss.split(ps, smax_, cs); }); why = judge_split(S, full, threw, false, v, "(ST::string, " + smax(k.max) + ", explicit case_sensitive)"); if (!why.empty()) return why; }
 
-            const bool cmay = cstr_pieces_checked && !all_valid(ref::split(S, Pc, k.max, ci));
             threw = k.max_default && !ci ? lib_call(v, [&] { return ss.split(pzp); }) : !ci ? lib_call(v, [&] { return ss.split(pzp, smax_); }) : lib_call(v, [&] { return ss.split(pzp, smax_, cs); });
-            why = judge_split(S, Pc, k.max, ci, threw, cmay, v, "(const char*, " + smax(k.max) + mode);
+            why = judge_split(S, cut, threw, cmay, v, "(const char*, " + smax(k.max) + mode);
+            if (!why.empty()) return why;
+            // char8_t: const subject and mutable subject
+            threw = k.max_default && !ci ? lib_call(v, [&] { return ss.split(pz8); }) : !ci ? lib_call(v, [&] { return ss.split(pz8, smax_); }) : lib_call(v, [&] { return ss.split(pz8, smax_, cs); });
+            why = judge_split(S, cut, threw, cmay, v, "(const char8_t*, " + smax(k.max) + mode);
+            if (!why.empty()) return why;
+            threw = lib_call(v, [&] { return ms.split(pz8, smax_, cs); });
+            why = judge_split(S, cut, threw, cmay, v, "(const char8_t*, " + smax(k.max) + ", mutable subject" + mode);
             if (!why.empty()) return why;
 
             if (char_form) {
                 const char ch = P[0];
                 threw = k.max_default && !ci ? lib_call(v, [&] { return ss.split(ch); }) : !ci ? lib_call(v, [&] { return ss.split(ch, smax_); }) : lib_call(v, [&] { return ss.split(ch, smax_, cs); });
-                why = judge_split(S, P, k.max, ci, threw, false, v, "(char, " + smax(k.max) + mode);
+                why = judge_split(S, full, threw, false, v, "(char, " + smax(k.max) + mode);
                 if (!why.empty()) return why;
+            }
+            if (!ci && !k.max_default) {     // max_splits defaulted (= no limit), case mode defaulted
+                const SplitModel &fulld = memo.split(P, ULLONG_MAX, false), &cutd = memo.split(Pc, ULLONG_MAX, false);
+                const bool cmayd = cstr_pieces_checked && !cutd.pieces_valid;
+                threw = lib_call(v, [&] { return ss.split(ps); }); why = judge_split(S, fulld, threw, false, v, "(ST::string) [max_splits defaulted]"); if (!why.empty()) return why;
+                threw = lib_call(v, [&] { return ss.split(pzp); }); why = judge_split(S, cutd, threw, cmayd, v, "(const char*) [max_splits defaulted]"); if (!why.empty()) return why;
+                threw = lib_call(v, [&] { return ms.split(pz8); }); why = judge_split(S, cutd, threw, cmayd, v, "(const char8_t*) [max_splits defaulted]"); if (!why.empty()) return why;
+                if (char_form) { const char ch = P[0]; threw = lib_call(v, [&] { return ss.split(ch); }); why = judge_split(S, fulld, threw, false, v, "(char) [max_splits defaulted]"); if (!why.empty()) return why; }
+            }
+            // self-referential: the subject split by itself (two empty pieces when it is not empty and max allows a cut)
+            {
+                const SplitModel &self = memo.split(S, k.max, ci), &selfc = memo.split(Sc, k.max, ci);
+                threw = lib_call(v, [&] { return ss.split(ss, smax_, cs); }); why = judge_split(S, self, threw, false, v, "(ST::string = the subject itself, " + smax(k.max) + mode); if (!why.empty()) return why;
+                threw = lib_call(v, [&] { return ss.split(ss.c_str(), smax_, cs); });
+                why = judge_split(S, selfc, threw, !ref::all_ascii(Sc) && !selfc.pieces_valid, v, "(const char* = the subject's own c_str(), " + smax(k.max) + mode); if (!why.empty()) return why;
             }
             { verif::alloc::LibScope ls; v.clear(); v.shrink_to_fit(); }
 
-            // ---- replace: the four from/to overload combinations; C strings are validated on the way in
-            const bool pbad = !ref::utf8_structurally_valid(Pc), tbad = !ref::utf8_structurally_valid(Tc);
+            // ---- replace: every from/to overload combination; C strings are validated on the way in
             ST::string res;
+            auto judge = [&](const std::string &from, const std::string &to, bool may_args, const std::string &tag) {
+                return judge_replace(S, memo.replace(from, to, ci), threw, may_args, res, tag);
+            };
             threw = ci ? lib_call(res, [&] { return ss.replace(ps, ts, cs); }) : lib_call(res, [&] { return ss.replace(ps, ts); });
-            why = judge_replace(S, P, T, ci, threw, false, res, "(ST::string, ST::string" + mode);
-            if (!why.empty()) return why;
+            why = judge(P, T, false, "(ST::string, ST::string" + mode); if (!why.empty()) return why;
+            if (!ci) { threw = lib_call(res, [&] { return ss.replace(ps, ts, cs); }); why = judge(P, T, false, "(ST::string, ST::string, explicit case_sensitive)"); if (!why.empty()) return why; }
             threw = ci ? lib_call(res, [&] { return ss.replace(pzp, tzp, cs); }) : lib_call(res, [&] { return ss.replace(pzp, tzp); });
-            why = judge_replace(S, Pc, Tc, ci, threw, pbad || tbad, res, "(const char*, const char*" + mode);
-            if (!why.empty()) return why;
-            threw = lib_call(res, [&] { return ss.replace(ps, tzp, cs); });
-            why = judge_replace(S, P, Tc, ci, threw, tbad, res, "(ST::string, const char*" + mode);
-            if (!why.empty()) return why;
-            threw = lib_call(res, [&] { return ss.replace(pzp, ts, cs); });
-            why = judge_replace(S, Pc, T, ci, threw, pbad, res, "(const char*, ST::string" + mode);
-            if (!why.empty()) return why;
+            why = judge(Pc, Tc, pbad || tbad, "(const char*, const char*" + mode); if (!why.empty()) return why;
+            threw = ci ? lib_call(res, [&] { return ss.replace(ps, tzp, cs); }) : lib_call(res, [&] { return ss.replace(ps, tzp); });
+            why = judge(P, Tc, tbad, "(ST::string, const char*" + mode); if (!why.empty()) return why;
+            threw = ci ? lib_call(res, [&] { return ss.replace(pzp, ts, cs); }) : lib_call(res, [&] { return ss.replace(pzp, ts); });
+            why = judge(Pc, T, pbad, "(const char*, ST::string" + mode); if (!why.empty()) return why;
+            // char8_t forms.  (const char8_t*, const ST::string&) is a non-const member: on a mutable subject it is that overload,
+            // on a const subject the call goes through ST::string(const char8_t*) and the (ST::string, ST::string) overload
+            threw = ci ? lib_call(res, [&] { return ss.replace(pz8, tz8, cs); }) : lib_call(res, [&] { return ss.replace(pz8, tz8); });
+            why = judge(Pc, Tc, pbad || tbad, "(const char8_t*, const char8_t*" + mode); if (!why.empty()) return why;
+            threw = ci ? lib_call(res, [&] { return ss.replace(ps, tz8, cs); }) : lib_call(res, [&] { return ss.replace(ps, tz8); });
+            why = judge(P, Tc, tbad, "(ST::string, const char8_t*" + mode); if (!why.empty()) return why;
+            threw = ci ? lib_call(res, [&] { return ms.replace(pz8, ts, cs); }) : lib_call(res, [&] { return ms.replace(pz8, ts); });
+            why = judge(Pc, T, pbad, "(const char8_t*, ST::string, mutable subject" + mode); if (!why.empty()) return why;
+            threw = ci ? lib_call(res, [&] { return ss.replace(pz8, ts, cs); }) : lib_call(res, [&] { return ss.replace(pz8, ts); });
+            why = judge(Pc, T, pbad, "(const char8_t*, ST::string, const subject" + mode); if (!why.empty()) return why;
+            // (ms.replace(pz8, tz8, ...) on a mutable subject does not compile: ambiguous between the const (char8_t*, char8_t*) overload
+            //  and the non-const (char8_t*, const ST::string&) one - reported, nothing to run)
+            threw = lib_call(res, [&] { return ms.replace(ps, tz8, cs); });
+            why = judge(P, Tc, tbad, "(ST::string, const char8_t*, mutable subject" + mode); if (!why.empty()) return why;
+            // explicit validation argument (1 check_validity = the default, 2 assume_valid: C strings taken as they are,
+            // 3 substitute_invalid: C strings repaired first), incl. the deprecated (ST::string, ST::string, cs, validation)
+            for (int vi = 1; vi <= 3; vi++) {
+                if (S.size() > 1024 && vi != 1 + (int)((S.size() + P.size() + (size_t)m) % 3)) continue;   // long subjects: one validation value per case mode
+                const ST::utf_validation_t val = VAL[vi];
+                const std::string &Pv = vi == 3 ? Psub : Pc, &Tv = vi == 3 ? Tsub : Tc;
+                const bool pb = vi == 1 && pbad, tb = vi == 1 && tbad;
+                const std::string vm = std::string(vname(vi)) + ")";
+                threw = lib_call(res, [&] { return ss.replace(ps, ts, cs, val); });
+                why = judge(P, T, false, "(ST::string, ST::string" + mode.substr(0, mode.size() - 1) + vm + " [deprecated]"); if (!why.empty()) return why;
+                threw = lib_call(res, [&] { return ss.replace(pzp, tzp, cs, val); });
+                why = judge(Pv, Tv, pb || tb, "(const char*, const char*" + mode.substr(0, mode.size() - 1) + vm); if (!why.empty()) return why;
+                threw = lib_call(res, [&] { return ss.replace(ps, tzp, cs, val); });
+                why = judge(P, Tv, tb, "(ST::string, const char*" + mode.substr(0, mode.size() - 1) + vm); if (!why.empty()) return why;
+                threw = lib_call(res, [&] { return ss.replace(pzp, ts, cs, val); });
+                why = judge(Pv, T, pb, "(const char*, ST::string" + mode.substr(0, mode.size() - 1) + vm); if (!why.empty()) return why;
+                threw = lib_call(res, [&] { return ss.replace(pz8, tz8, cs, val); });
+                why = judge(Pv, Tv, pb || tb, "(const char8_t*, const char8_t*" + mode.substr(0, mode.size() - 1) + vm); if (!why.empty()) return why;
+                threw = lib_call(res, [&] { return ss.replace(ps, tz8, cs, val); });
+                why = judge(P, Tv, tb, "(ST::string, const char8_t*" + mode.substr(0, mode.size() - 1) + vm); if (!why.empty()) return why;
+                threw = lib_call(res, [&] { return ms.replace(pz8, ts, cs, val); });
+                why = judge(Pv, T, pb, "(const char8_t*, ST::string, mutable subject" + mode.substr(0, mode.size() - 1) + vm); if (!why.empty()) return why;
+                // on a const subject the same spelling converts `from` with the DEFAULT validation and then takes the deprecated
+                // overload, which ignores `validation`: judged as a default-validated C string
+                threw = lib_call(res, [&] { return ss.replace(pz8, ts, cs, val); });
+                why = judge(Pc, T, pbad, "(const char8_t*, ST::string, const subject" + mode.substr(0, mode.size() - 1) + vm); if (!why.empty()) return why;
+            }
+            // self-referential: the subject as pattern and / or replacement
+            threw = lib_call(res, [&] { return ss.replace(ss, ss, cs); });
+            why = judge(S, S, false, "(the subject itself, the subject itself" + mode); if (!why.empty()) return why;
+            threw = lib_call(res, [&] { return ss.replace(ss, ts, cs); });
+            why = judge(S, T, false, "(the subject itself, ST::string" + mode); if (!why.empty()) return why;
+            if (ref89::count_nonoverlapping(S, P, ci) * S.size() <= (1u << 18)) {       // (every occurrence grows into a copy of the subject: keep the result modest)
+                threw = lib_call(res, [&] { return ss.replace(ps, ss, cs); });
+                why = judge(P, S, false, "(ST::string, the subject itself" + mode); if (!why.empty()) return why;
+            }
+            threw = lib_call(res, [&] { return ss.replace(ss.c_str(), ss.c_str(), cs); });
+            why = judge(Sc, Sc, !ref::utf8_structurally_valid(Sc), "(the subject's own c_str() twice" + mode); if (!why.empty()) return why;
             { verif::alloc::LibScope ls; res = ST::string(); }
         }
-        // ---- tokenize
-        {
+        // ---- tokenize: the defaulted delimiter set (documented: blank, tab, CR, LF) in every case, the explicit set, and the
+        // subject's own C string as the set
+        for (int t = 0; t < 3; t++) {
+            if (t == 1 && k.delims_default) continue;
             std::vector<ST::string> v;
-            const std::string D = k.delims_default ? std::string(" \t\r\n") : k.delims;
-            bool threw = k.delims_default ? lib_call(v, [&] { return ss.tokenize(); }) : lib_call(v, [&] { return ss.tokenize(dzp); });
+            const std::string D = t == 0 ? std::string(" \t\r\n") : t == 1 ? k.delims : Sc;
+            const char *what = t == 0 ? "default" : t == 1 ? "explicit set" : "own c_str()";
+            bool threw = t == 0 ? lib_call(v, [&] { return ss.tokenize(); }) : t == 1 ? lib_call(v, [&] { return ss.tokenize(dzp); }) : lib_call(v, [&] { return ss.tokenize(ss.c_str()); });
             if (threw) return "tokenize threw ST::unicode_error";
             std::vector<std::string> got; for (const ST::string &x : v) got.push_back(str(x));
-            const std::vector<std::string> want = ref::tokenize(S, D);
-            if (got != want) return "tokenize(" + (k.delims_default ? std::string("default") : verif::quoted(D, 16)) + ") returned " + show(got) + ", reference " + show(want);
-            for (const std::string &t : got) { if (t.empty()) return "tokenize returned an empty token"; for (char ch : t) if (ref::in_set(ch, D)) return "tokenize returned a token containing a delimiter"; }
+            const std::vector<std::string> want = S.size() > 256 || D.size() > 64 ? ref89::tokenize(S, D) : ref::tokenize(S, D);
+            if (got != want) return std::string("tokenize(") + what + (t == 2 ? std::string() : " " + verif::quoted(D, 44)) + ") returned " + show(got) + ", reference " + show(want);
+            const ref89::ByteSet dset(D);
+            for (const std::string &tk : got) { if (tk.empty()) return "tokenize returned an empty token"; for (char ch : tk) if (dset.in[(unsigned char)ch]) return "tokenize returned a token containing a delimiter"; }
             { verif::alloc::LibScope ls; v.clear(); v.shrink_to_fit(); }
         }
-        { verif::alloc::LibScope ls; ss = ST::string(); ps = ST::string(); ts = ST::string(); }
+        { verif::alloc::LibScope ls; ss_ = ST::string(); ps = ST::string(); ts = ST::string(); ms = ST::string(); }
     } catch (const verif::budget_exceeded &b) {
         return std::string("a call does not terminate in bounded resources: ") + b.what;
     } catch (const std::bad_alloc &) {
@@ -188,7 +308,7 @@ struct Cls { bool multi = false, overlap = false, empty_on_nul = false; bool any
 Cls classify(const TextCase &k) {
     Cls c;
     for (int m = 0; m < 2; m++) {
-        if (ref::split(k.s, k.pat, ULLONG_MAX, m != 0).size() >= 3) c.multi = true;
+        if (ref89::count_nonoverlapping(k.s, k.pat, m != 0) >= 2) c.multi = true;      // (= an unlimited split has >= 3 pieces)
         if (ref::has_overlapping_occurrences(k.s, k.pat, m != 0)) c.overlap = true;
     }
     if (k.pat.empty() && gen::has_nul(k.s)) c.empty_on_nul = true;
@@ -235,6 +355,82 @@ std::string high_byte(const std::string &s, size_t from) {
     return std::string();
 }
 
+void put32(std::vector<uint8_t> &v, uint32_t x) { for (int i = 0; i < 4; i++) v.push_back((uint8_t)(x >> (8 * i))); }
+// directed encoding for long fields (first bytes 0xFE 0xA5 0x5A): 32-bit lengths
+std::vector<uint8_t> encode_long(const TextCase &k) {
+    std::vector<uint8_t> v;
+    v.push_back(0xFE); v.push_back(0xA5); v.push_back(0x5A);
+    v.push_back((uint8_t)((k.max_default ? 1 : 0) | (k.delims_default ? 2 : 0)));
+    put64(v, k.max);
+    put32(v, (uint32_t)k.s.size()); put32(v, (uint32_t)k.pat.size()); put32(v, (uint32_t)k.to.size()); put32(v, (uint32_t)k.delims.size());
+    v.insert(v.end(), k.s.begin(), k.s.end()); v.insert(v.end(), k.pat.begin(), k.pat.end());
+    v.insert(v.end(), k.to.begin(), k.to.end()); v.insert(v.end(), k.delims.begin(), k.delims.end());
+    return v;
+}
+std::vector<uint8_t> encode_any(const TextCase &k) { return (k.s.size() > 255 || k.pat.size() > 255 || k.to.size() > 64 || k.delims.size() > 255) ? encode_long(k) : encode(k); }
+
+// keeps replace results modest: at most ~4x the subject for long subjects (every byte could be an occurrence)
+void bound_replacement(TextCase &k) {
+    if (k.s.size() <= 4096 || k.pat.empty()) { if (k.to.size() > 4096) k.to.resize(4096); return; }
+    const size_t lim = 4 * k.pat.size() > 8 ? 4 * k.pat.size() : 8;
+    if (k.to.size() > lim) k.to.resize(lim);
+}
+
+// the long layout (leading byte 0xE0..0xFD): subject and pattern from gen/gen_long89.h
+void decode_long(verif::Reader &r, TextCase &k, Case &c) {
+    gen89::LongPlan lp = gen89::plan_long(r);
+    unsigned msel = (unsigned)r.range(0, 17); ull mv = r.range(0, 65535);
+    unsigned tsel = (unsigned)r.range(0, 9), tv = r.u8();
+    unsigned dsel = (unsigned)r.range(0, gen89::NSETS - 1);
+    gen89::Long lt = gen89::build_long(lp);
+    gen89::Mix m(lp.seed * 0x9E3779B97F4A7C15ull + dsel);
+    k.s = lt.s; k.pat = lt.sep;
+    const std::string &S = k.s, &P = k.pat;
+    switch (tsel) {
+        case 0: break;                                                                      // empty: result shrinks
+        case 1: k.to = "r"; break;
+        case 2: k.to = gen::flip_case(P, tv | 0x100u); if (k.to == P && !P.empty()) k.to = std::string(P.size(), '~'); break;   // same length
+        case 3: k.to = P + P; break;                                                        // longer, contains the pattern twice
+        case 4: gen89::fill_to(m, k.to, 8 + tv % 17, gen89::F_TEXT); break;                 // 8..24 bytes
+        case 5: k.to = "x" + P + "y"; break;                                                // contains the pattern: must not be rescanned
+        case 6: k.to = std::string(1, (char)(0x80 | tv)); break;                            // a raw high byte: result not valid UTF-8
+        case 7: gen89::fill_to(m, k.to, 2 + tv % 2, gen89::F_TEXT); break;
+        case 8: gen89::fill_to(m, k.to, 64, gen89::F_CORE); break;
+        default: k.to = P.substr(0, P.size() ? P.size() - 1 : 0); break;                   // the pattern minus its last byte
+    }
+    bound_replacement(k);
+    const ull occ = ref89::count_nonoverlapping(S, P, (mv & 0x8000) != 0);
+    k.max_default = false;
+    switch (msel) {
+        case 0: k.max_default = true; k.max = ULLONG_MAX; break;
+        case 1: k.max = 0; break;   case 2: k.max = 1; break;   case 3: k.max = 2; break;
+        case 4: k.max = occ; break; case 5: k.max = occ + 1; break; case 6: k.max = occ ? occ - 1 : 0; break;
+        case 7: k.max = ULLONG_MAX; break;  case 8: k.max = 255; break; case 9: k.max = 256; break; case 10: k.max = 257; break;
+        case 11: k.max = 65535; break; case 12: k.max = 65536; break; case 13: k.max = 1ull << 32; break; case 14: k.max = (1ull << 32) + 1; break;
+        case 15: k.max = 1ull << 63; break; case 16: k.max = ULLONG_MAX - 1 - (mv & 0xFF); break;
+        default: k.max = occ / 2; break;
+    }
+    k.delims_default = dsel == 0;
+    k.delims = gen89::make_set((int)dsel, S, m);
+
+    const size_t sz = S.size();
+    c.label("x:long-layout");
+    c.label(sz <= 300 ? "x:size:<=300" : sz <= 1500 ? "x:size:301-1500" : sz <= 4200 ? "x:size:1501-4200" : sz <= 16500 ? "x:size:4201-16500" : "x:size:16501-50000");
+    if (lt.aligned_end) c.label("x:last-occurrence-at-block-edge-from-END");
+    if (lt.aligned_start) c.label("x:first-occurrence-at-block-edge-from-START");
+    c.label(gen89::sep_kind_name(lp.kind));
+    { const size_t L = P.size(); c.label(L < 8 ? "x:patlen:1-7" : L <= 64 ? "x:patlen:8-64" : L < 255 ? "x:patlen:65-254" : L <= 257 ? "x:patlen:255-257" : "x:patlen:258-300"); }
+    { const ull o2 = ref89::count_nonoverlapping(S, P, true);
+      c.label(o2 == 0 ? "x:occ:0" : o2 == 1 ? "x:occ:1" : o2 < 17 ? "x:occ:2-16" : o2 < 200 ? "x:occ:17-199" : "x:occ:200+");
+      c.label(k.max_default ? "x:max:default" : k.max == 0 ? "x:max:0" : k.max >= ULLONG_MAX - 300 ? "x:max:SIZE_MAX(-k)" : k.max < o2 ? "x:max:<occ" : k.max == o2 ? "x:max:==occ" : k.max >= 65535 ? "x:max:>=65535" : "x:max:>occ");
+      if (o2 != ref89::count_nonoverlapping(S, P, false)) c.label("x:ci-only-occurrences"); }
+    c.label(gen89::set_name((int)dsel));
+    { size_t nt = ref89::tokenize(S, k.delims).size(); c.label(nt == 0 ? "x:tokens:0" : nt < 17 ? "x:tokens:1-16" : nt < 200 ? "x:tokens:17-199" : "x:tokens:200+"); }
+    if (sz <= 6000 && ref89::has_xor20_near_miss(S, P)) c.label("x:ci-xor-0x20-near-miss");
+    if (!P.empty() && (ref::starts_with(S, P, false) || ref::ends_with(S, P, false))) c.label("x:pat-is-prefix-or-ends-at-end");
+    c.label(gen89::filler_name(lp.filler));
+}
+
 }  // namespace
 
 int verif_case(const uint8_t *data, size_t size, Case &c) {
@@ -252,6 +448,27 @@ int verif_case(const uint8_t *data, size_t size, Case &c) {
         for (size_t i = 0; i < dl; i++) { char ch = (char)r.u8(); if (ch) k.delims += ch; }
         if (k.to.size() > 64) k.to.resize(64);         // keep results modest whatever the fuzzer writes here
         c.label("directed");
+    } else if (mode == 0xFE && size >= 3 && data[1] == 0xA5 && data[2] == 0x5A) {
+        // directed, long fields (written by the enumerators): 32-bit lengths, capped
+        r.u8(); r.u8();
+        uint8_t fl = r.u8();
+        k.max_default = fl & 1; k.delims_default = (fl & 2) != 0;
+        k.max = r.bits64(); if (k.max_default) k.max = ULLONG_MAX;
+        size_t sl = r.bits32(), pl = r.bits32(), tl = r.bits32(), dl = r.bits32();
+        if (sl > (1u << 18)) sl = 1u << 18;
+        if (pl > (1u << 18)) pl = 1u << 18;
+        if (tl > 4096) tl = 4096;
+        if (dl > 4096) dl = 4096;
+        if (sl + pl + tl + dl > size) { sl = sl < size ? sl : size; pl = pl < size ? pl : size; tl = tl < size ? tl : size; dl = dl < size ? dl : size; }   // never longer than the input itself
+        k.s.reserve(sl);
+        for (size_t i = 0; i < sl; i++) k.s += (char)r.u8();
+        for (size_t i = 0; i < pl; i++) k.pat += (char)r.u8();
+        for (size_t i = 0; i < tl; i++) k.to += (char)r.u8();
+        for (size_t i = 0; i < dl; i++) { char ch = (char)r.u8(); if (ch) k.delims += ch; }
+        bound_replacement(k);
+        c.label("directed-long");
+    } else if (mode >= 0xE0 && mode <= 0xFD) {
+        decode_long(r, k, c);
     } else {
         // structural choices first, content afterwards
         gen::Plan sp = gen::plan(r, 60, 1);
@@ -363,6 +580,90 @@ long verif_enumerate(int shard, int nshards, int tier, verif::EnumReport &r) {
             }
         }
     }
+    auto run = [&](const TextCase &k) -> bool {
+        cur = encode_any(k); verif::set_current(cur.data(), cur.size());
+        r.evaluations++;
+        if (classify(k).any()) r.nontrivial++;
+        std::string why = check_text(k);
+        if (!why.empty()) { if (r.failure.empty()) { r.failure = why; r.failing_case = render(k); r.failing_bytes = cur; } return false; }
+        return true;
+    };
+    // ---- pattern-length sweep: every length 1..300 of a ruler / a run of distinct punctuation that occurs nowhere else in
+    // ordinary text: twice inside, as prefix and exact suffix, one byte short (absent), one byte long, after a look-alike with
+    // every byte XOR 0x20, three in a row, equal to the subject
+    {
+        const std::string A = "The quick brown fox ", B = " jumps over the lazy dog; ", C = " and runs away.\n";
+        for (int L = 1 + shard; L <= 300; L += nshards) {
+            for (int kind = 0; kind < 2; kind++) {
+                gen89::Mix m(0);
+                const std::string sep = gen89::make_sep(m, kind == 0 ? gen89::P_RULER : gen89::P_DISTINCT, (size_t)L);
+                std::string alike = sep; for (char &ch : alike) ch = (char)(ch ^ 0x20);
+                const std::string subj[7] = {A + sep + B + sep + C, sep + B + sep, A + sep.substr(0, sep.size() - 1) + B, A + sep + sep.substr(0, 1) + B,
+                                             A + alike + B + sep + C, sep, A + sep + sep + sep + C};
+                for (int v = 0; v < 7; v++) {
+                    TextCase k; k.s = subj[v]; k.pat = sep; k.delims_default = false; k.delims = sep.substr(0, 1) + " ";
+                    switch ((v + L) % 4) {
+                        case 0: k.to = ""; k.max = 1; k.max_default = false; break;
+                        case 1: k.to = "r"; break;
+                        case 2: k.to = std::string((size_t)L, '~'); k.max = 2; k.max_default = false; break;
+                        default: k.to = sep + "!"; k.max = ULLONG_MAX - 1; k.max_default = false; break;
+                    }
+                    if (!run(k)) return r.evaluations;
+                    if (r.samples.size() < 2 && L == 256 && v == 0 && kind == 0) r.samples.push_back(render(k));
+                }
+            }
+        }
+    }
+    // ---- more occurrences than 16 bits can count: 70000 one-byte / two-byte separators, every argument defaulted
+    for (int v = 0; v < 4; v++) {
+        if (v % nshards != shard) continue;
+        TextCase k; k.s.reserve(210000);
+        for (int i = 0; i < 70000; i++) { k.s += (char)('a' + i % 26); k.s += v < 2 ? "," : ", "; }
+        k.pat = v < 2 ? "," : ", "; k.to = v % 2 ? "" : ";;"; k.delims_default = false; k.delims = ", ";
+        if (v == 3) { k.max = 65536; k.max_default = false; }
+        if (!run(k)) return r.evaluations;
+    }
+    // ---- delimiter sets of every size 0..40 (prefixes of two orderings of a 40-byte list with bytes >= 0x80 at positions 0, 15, 16,
+    // 17 and 39) over a subject that contains every byte value
+    {
+        std::string all; for (int rep = 0; rep < 2; rep++) for (int b = 0; b < 256; b++) { all += (char)((b * 37 + rep * 101) & 0xFF); if (b % 5 == rep) all += 'x'; }
+        std::string list = "\xE9 \t,;:-_/|0123456\xA0\x80\xFF" "789abcdefghijklmnopq\xC3";
+        std::string rev(list.rbegin(), list.rend());
+        int idx = 0;
+        for (int o = 0; o < 2; o++) for (size_t d = 0; d <= 40; d++) {
+            if (idx++ % nshards != shard) continue;
+            TextCase k; k.s = all; k.pat = (o ? rev : list).substr(0, d < 3 ? d : 3); k.to = "="; k.delims_default = false; k.delims = (o ? rev : list).substr(0, d);
+            if (!run(k)) return r.evaluations;
+        }
+    }
+    // ---- the first / last / only occurrence of a multi-byte pattern around a block edge counted from the START and from the END
+    // of a ~48 KB text: a block-wise search must not drop an occurrence that straddles the edge
+    {
+        static const size_t BL[] = {16, 64, 256, 4096, 16384, 16386};
+        static const size_t SL[] = {2, 3, 8, 17};
+        int idx = 0;
+        for (size_t B : BL) for (size_t mult = 1; mult <= 2; mult++) for (size_t L : SL) for (size_t j = 0; j <= L + 2; j++) for (int side = 0; side < 2; side++) {
+            if (side == 1 && B * mult + 1 < j) continue;
+            if (idx++ % nshards != shard) continue;
+            const size_t n = 49157;
+            TextCase k; k.s.reserve(n);
+            for (size_t i = 0; i < n; i++) k.s += (char)('a' + (i * 11 + i / 53) % 26);
+            gen89::Mix m(0);
+            k.pat = gen89::make_sep(m, gen89::P_DISTINCT, L); k.pat[0] = 'Q';
+            const size_t at = side == 0 ? n - (B * mult + j - 1) : B * mult + 1 - j;
+            k.s.replace(at, L, k.pat);
+            if (j % 2) { std::string lower = k.pat; lower[0] = 'q'; k.s.replace(side == 0 ? 1000 : n - 1000, L, lower); }   // a second occurrence in the other letter case
+            k.to = j % 3 == 0 ? "" : j % 3 == 1 ? "<>" : k.pat + k.pat; k.delims_default = false; k.delims = k.pat.substr(0, 2);
+            if (j % 4 == 3) { k.max = 1; k.max_default = false; }
+            if (!run(k)) return r.evaluations;
+        }
+    }
+    if (shard == 0) {
+        r.exhausted.push_back("patterns (a ruler of dashes, a run of distinct punctuation) of every length 1..300 in ordinary text: twice inside, as prefix and exact suffix, one byte short, one byte long, after an all-bytes-XOR-0x20 look-alike, equal to the subject, three in a row; replacements empty / one byte / same length / longer; every overload, both case modes");
+        r.exhausted.push_back("70000 separators (one-byte and two-byte) in one text: split with every argument defaulted and with max_splits=65536, replace, tokenize");
+        r.exhausted.push_back("tokenize with delimiter sets of every size 0..40 (two orderings, bytes >= 0x80 at positions 0, 15, 16, 17, 39) over a text containing every byte value");
+        r.exhausted.push_back("a 49157-byte text whose first / last (or only) occurrence of a 2, 3, 8, 17-byte pattern starts at every offset B*m-|pat|-1 .. B*m+1 from the START / B*m-1 .. B*m+|pat|+1 from the END, B in {16, 64, 256, 4096, 16384, 16386}, m in {1, 2}");
+    }
     if (shard == 0)
         r.exhausted.push_back("every subject of length <= 5 over {a,b,NUL} (364) x every pattern of length 0..2 over the same alphabet (13) x replacement in {\"\",\"b\",\"aa\",\"aba\"} x max_splits in {0,1,2,SIZE_MAX}, both case modes, all overloads; delimiters = bytes of the pattern");
     return r.evaluations;
@@ -373,4 +674,6 @@ void verif_corpus(std::vector<std::vector<uint8_t>> &out) {
     k.s = "aaa"; k.pat = "aa"; k.to = "b"; out.push_back(encode(k));
     k.s = "one, two,three ,,four"; k.pat = ","; k.to = "::"; k.max = 2; k.max_default = false; k.delims = ", "; k.delims_default = false; out.push_back(encode(k));
     out.push_back({1, 2, 3, 4, 5, 6, 7, 8, 9, 10, 11, 12, 13, 14, 15, 16, 17, 18, 19, 20});
+    out.push_back({0xE0, 11, 2, 1, 0, 0, 1, 5, 4, 3, 9, 0x11, 0x22, 0x33, 0x44, 0x55, 0x66, 0x77, 0x88, 0, 0, 0, 3, 7, 2});        // long layout: 1024-byte text, 255-byte ruler, 17 occurrences
+    out.push_back({0xE1, 3, 200, 4, 3, 12, 6, 4, 0, 0, 8, 7, 6, 5, 4, 3, 2, 1, 4, 9, 0x80, 2, 33, 9});                             // long layout: case-neighbour text and pattern, 60 occurrences with look-alikes
 }
